@@ -3,6 +3,7 @@ package rules
 import (
 	"fmt"
 	"go/ast"
+	"regexp"
 	"strings"
 
 	"verif/checker/internal/core"
@@ -20,6 +21,8 @@ func init() {
 }
 
 // armTemplates returns sink templates whose position lies inside node n.
+var holeRe = regexp.MustCompile(`⟨\d+⟩`)
+
 func templatesIn(c *ctx.Ctx, n ast.Node) []*tmpl.Template {
 	var out []*tmpl.Template
 	for _, t := range corpus(c).Templates {
@@ -390,6 +393,69 @@ func ruleC08Defer(c *ctx.Ctx, r *core.Reporter) {
 	})
 	r.Check(prologue, "body:prologue", c.Pos(fb.Pos()), "under fc.HasDefer the function creates its $deferred list and pushes it on the goroutine's defer stack")
 	r.Check(tryOpen && catchPart && finallyPart, "body:try-catch-finally", c.Pos(fb.Pos()), "under fc.HasDefer the body is wrapped in try { … } catch(err) { $err = err … } finally { $callDeferred($deferred, $err) … }")
+	// each part of the wrapper is emitted under exactly its own condition: a part that moves under a
+	// narrower (or wider) guard changes what happens after a panic in the functions it no longer (or newly) covers
+	for _, g := range []struct {
+		frag, id, why string
+		guards        []string
+	}{
+		{"} catch(err) { $err = err;", "catch", "every function with defers records the panic", []string{"fc.HasDefer"}},
+		{" $s = -1;", "catch-stops-resume", "after a panic a flattened body must never be re-entered: the resume label is reset in every blocking function with defers, whatever its result list looks like", []string{"fc.HasDefer", "fc.IsBlocking()"}},
+		{" return%s;", "catch-returns-zero", "with unnamed results the catch block returns the zero results", []string{"fc.HasDefer", "fc.resultNames==nil&&fc.sig.HasResults()"}},
+		{"} finally { $callDeferred($deferred, $err);", "finally", "deferred calls run on every exit", []string{"fc.HasDefer"}},
+		{" if (!$curGoroutine.asleep) { return %s; }", "finally-returns-named", "named results are returned after the deferred calls ran, unless one of them suspended", []string{"fc.HasDefer", "fc.resultNames!=nil"}},
+		{" if($curGoroutine.asleep) {", "finally-suspends", "a blocking function whose deferred call suspended saves its frame", []string{"fc.HasDefer", "fc.IsBlocking()"}},
+	} {
+		var hit *tmpl.Template
+		for _, t := range templatesIn(c, fb.Body) {
+			if strings.TrimSpace(holeRe.ReplaceAllString(t.Text, "%s")) == strings.TrimSpace(g.frag) {
+				if fc := enclosingIfs(fb.Body, t.Pos); len(fc) > 0 && squash(exprStr(fc[0].Cond)) == "fc.HasDefer" {
+					hit = t
+				}
+			}
+		}
+		if hit == nil {
+			r.Violation("wrapper:"+g.id, c.Pos(fb.Pos()), fmt.Sprintf("the defer wrapper no longer emits %q under fc.HasDefer", g.frag))
+			continue
+		}
+		var got []string
+		for _, is := range enclosingIfs(fb.Body, hit.Pos) {
+			got = append(got, squash(exprStr(is.Cond)))
+		}
+		r.Check(strings.Join(got, " ∧ ") == strings.Join(g.guards, " ∧ "), "wrapper:"+g.id, c.Pos(hit.Pos), fmt.Sprintf("%q is emitted exactly under %s (found %s): %s", g.frag, strings.Join(g.guards, " ∧ "), strings.Join(got, " ∧ "), g.why))
+	}
+	// a flattened body that was abandoned by a panic ($s = -1) and is resumed because a deferred call
+	// suspended falls out of the switch: wherever the catch block returns zero results, the end of the
+	// switch must return them too (otherwise the function yields undefined after a recovered panic)
+	{
+		var end *tmpl.Template
+		var plainEnd *tmpl.Template
+		for _, t := range templatesIn(c, fb.Body) {
+			switch strings.TrimSpace(holeRe.ReplaceAllString(t.Text, "%s")) {
+			case "} return%s; }":
+				end = t
+			case "} return; }":
+				plainEnd = t
+			}
+		}
+		okEnd := false
+		detail := "no switch end that returns the zero results"
+		if end != nil && plainEnd != nil {
+			var conds []string
+			for _, is := range enclosingIfs(fb.Body, end.Pos) {
+				for _, cj := range conjuncts(is.Cond) {
+					conds = append(conds, squash(exprStr(cj)))
+				}
+			}
+			have := map[string]bool{}
+			for _, cd := range conds {
+				have[cd] = true
+			}
+			okEnd = have["len(fc.Flattened)!=0"] && have["fc.HasDefer"] && have["fc.resultNames==nil"] && have["fc.sig.HasResults()"] && len(conds) == 4
+			detail = "guard: " + strings.Join(conds, " ∧ ")
+		}
+		r.Check(okEnd, "wrapper:resume-after-abandon-returns-zero", c.Pos(fb.Pos()), "in a flattened function with defers and unnamed results the end of the resume switch returns the zero results, under the same condition as the catch block ("+detail+")")
+	}
 	// HasDefer is set by the analysis for every defer statement
 	if fi := c.FuncDecl("compiler/internal/analysis", "FuncInfo.Visit"); fi != nil {
 		ok := false
